@@ -12,6 +12,7 @@ GenNext == /\ Len(hist) < MaxSteps /\ ~done
            /\ (done' => asked' = Callers)     \* do not end a behaviour before every caller asked
            \* bias the random walks towards behaviours that exercise the handler
            /\ (last'.act.a = "stop" => Len(hist) >= StopAfter)
+           /\ (last'.act.a = "tick" => last.act.a # "tick")
            /\ (last'.act.a = "sched" => (~SchedIdle \/ (last.act.a # "sched" /\ pending # {})))
            /\ hist' = Append(hist, [act |-> last'.act, evs |-> last'.evs,
                                     conn |-> SeqOf(conn'), arch |-> SeqOf(arch')])
